@@ -1,44 +1,38 @@
 ------------------------------- MODULE BigNat -------------------------------
-(* Naturals of arbitrary size as little-endian sequences of limbs base 2^14, because TLC's
-   integers are 32-bit.  Only what the C08 row checks need: addition, multiplication by a small
-   factor (<= 65536), comparison.  With B = 2^14 every intermediate value is below 2^31:
-   16383 * 65536 + 65536 < 2^31.  MCPowerScale checks these operators against native integers. *)
-EXTENDS Integers, Sequences
-B == 16384
+(* Naturals of arbitrary size as little-endian sequences of limbs base 2^12, because TLC's integers
+   are 32-bit.  The only operation the C08 row checks need is the sign of  ka*a - kb*b  for small
+   factors ka, kb <= 65536 (and of sum(xs) - t).  It is computed limb-wise without normalisation:
+     d[j] = ka*a[j] - kb*b[j]            (|d[j]| < 2^28)
+     sign(sum_j d[j]*B^(j-1)) is obtained by a fold from the most significant limb,
+        acc := Clamp(acc)*B + d[j],  Clamp to [-K, K] with K = 2^17:
+   the not-yet-visited tail is below 2^28/B * (1 + 1/B + ...) < K/2 units of the current position, so
+   once |acc| >= K the sign is decided and clamping preserves it; K*B + 2^28 < 2^31 never overflows.
+   FoldRight has a Java implementation in the CommunityModules (no TLA+ recursion).
+   MCPowerScale checks these operators against native integer arithmetic.                        *)
+EXTENDS Integers, Sequences, SequencesExt
+B == 4096
+K == 131072
 
 Limb(n, i) == IF i <= Len(n) THEN n[i] ELSE 0
 MaxLen(a, b) == IF Len(a) >= Len(b) THEN Len(a) ELSE Len(b)
+Clamp(x) == IF x > K THEN K ELSE IF x < 0 - K THEN 0 - K ELSE x
+\* sign (as some integer of that sign) of the number whose unnormalised little-endian digits are d
+SignOf(d) == FoldRight(LAMBDA x, acc : Clamp(acc) * B + x, d, 0)
 
-RECURSIVE CarrySeq(_)
-CarrySeq(c) == IF c = 0 THEN <<>> ELSE <<c % B>> \o CarrySeq(c \div B)
+\* sign of ka*a - kb*b
+Diff(a, ka, b, kb) == SignOf([j \in 1..MaxLen(a, b) |-> ka * Limb(a, j) - kb * Limb(b, j)])
+LeqK(a, ka, b, kb) == Diff(a, ka, b, kb) <= 0      \* ka*a <= kb*b
+LessK(a, ka, b, kb) == Diff(a, ka, b, kb) < 0      \* ka*a <  kb*b
+Leq(a, b) == LeqK(a, 1, b, 1)
+Less(a, b) == LessK(a, 1, b, 1)
 
-RECURSIVE MulFrom(_, _, _, _)
-MulFrom(n, k, i, carry) ==
-  IF i > Len(n) THEN CarrySeq(carry)
-  ELSE LET v == n[i] * k + carry IN <<v % B>> \o MulFrom(n, k, i + 1, v \div B)
-MulSmall(n, k) == MulFrom(n, k, 1, 0)          \* 0 <= k <= 65536
+\* sum of the naturals xs[1..n] (n <= 500) equals t
+MaxLenOf(xs) == FoldLeft(LAMBDA acc, x : IF Len(x) > acc THEN Len(x) ELSE acc, 0, xs)
+SumIs(xs, t) == LET m == IF MaxLenOf(xs) > Len(t) THEN MaxLenOf(xs) ELSE Len(t)
+                IN SignOf([j \in 1..m |-> FoldLeft(LAMBDA acc, x : acc + Limb(x, j), 0, xs) - Limb(t, j)]) = 0
 
-RECURSIVE AddFrom(_, _, _, _)
-AddFrom(a, b, i, carry) ==
-  IF i > MaxLen(a, b) THEN CarrySeq(carry)
-  ELSE LET v == Limb(a, i) + Limb(b, i) + carry IN <<v % B>> \o AddFrom(a, b, i + 1, v \div B)
-Add(a, b) == AddFrom(a, b, 1, 0)
-
-\* -1, 0, 1 ; leading zero limbs are harmless
-RECURSIVE CmpFrom(_, _, _)
-CmpFrom(a, b, i) ==
-  IF i = 0 THEN 0
-  ELSE IF Limb(a, i) < Limb(b, i) THEN -1
-  ELSE IF Limb(a, i) > Limb(b, i) THEN 1
-  ELSE CmpFrom(a, b, i - 1)
-Cmp(a, b) == CmpFrom(a, b, MaxLen(a, b))
-Leq(a, b) == Cmp(a, b) <= 0
-Less(a, b) == Cmp(a, b) < 0
 IsZero(a) == \A i \in 1..Len(a) : a[i] = 0
 WellFormed(a) == \A i \in 1..Len(a) : a[i] \in 0..(B - 1)
-
-RECURSIVE SumSeq(_, _)
-SumSeq(s, i) == IF i > Len(s) THEN <<>> ELSE Add(s[i], SumSeq(s, i + 1))
 
 RECURSIVE FromInt(_)
 FromInt(n) == IF n = 0 THEN <<>> ELSE <<n % B>> \o FromInt(n \div B)
